@@ -44,7 +44,7 @@ opkinds! {
     NthBack = 23, "NthBack";
     Len = 24, "Len";
     SizeHint = 25, "SizeHint";
-    Observe = 26, "Observe";           // a = 0 Debug, 1 Hash, 2 Eq(self), 3 Eq(twin), 4 Ne(twin); f = observe-panic k
+    Observe = 26, "Observe";           // a = 0 Debug, 1 Hash, 2 Eq(self), 3 Eq(twin), 4 Ne(twin), 5 Debug alternate ({:#?}); f = observe-panic k, b = sink failure at write b
     TakeCount = 27, "TakeCount";       // it.by_ref().take(a).count(); f = drop-panic k
     RevTakeDrop = 28, "RevTakeDrop";   // it.by_ref().rev().take(a).for_each(drop); f = drop-panic k
     BagDrop = 29, "BagDrop";           // caller destroys a previously yielded element
@@ -151,6 +151,8 @@ pub struct Plan {
     pub faulty: bool,
     /// element shape for vector kinds: 0 = `Tok` (8 bytes, align 4), 1 = `Wide` (16 bytes, align 16), 2 = `Plain` (no drop glue), 3 = `ZDrop` (zero-sized, drop glue; counting oracle)
     pub elem: u8,
+    /// every element carries the same payload value (identities stay distinct)
+    pub uniform: bool,
     pub ops: Vec<Op>,
 }
 pub const ELEM_NAMES: [&str; 4] = ["Tok", "Wide16", "PlainNoDrop", "ZstDrop"];
